@@ -327,3 +327,37 @@ contract(_Q + "repr_failure._alter_traceback_linenos",
               "line number lies inside the failing part (frames of helpers defined by earlier, longer parts share the pseudo file name); "
               "precondition: a line that contains the pseudo file name is a traceback location line ('File \"..\", line N[, in f]')",
          sentinel=("drops-lines", "len(result) < len(tblines)"))
+
+
+# ------------------------------------------------------------------------ C18.numbers: every part is formatted with the same numbering
+contract("xdoctest.doctest_example:DoctestConfig.getvalue#display",
+         params={"self": "DoctestConfig", "key": "str", "given": "Optional[Val]"}, returns="Val", trusted=True, log=False,
+         note="the display options (colored, partnos, offset_linenos): the configured value unless an override is given")
+contract("xdoctest.doctest_part:DoctestPart.format_part#any",
+         params={"self": "DoctestPart", "linenos": "bool", "want": "bool", "startline": "int", "n_digits": "Optional[int]",
+                 "colored": "Val", "partnos": "Val", "prefix": "bool"},
+         returns="str", trusted=True, modifies=[],
+         note="the caller's view of format_part for any option values (its text is specified by the plain and the numbered contracts)")
+_FP = "ev_arg('DoctestPart.format_part', 0, '%s')"
+contract(_Q + "format_parts",
+         params={"self": "DocTest", "linenos": "bool", "colored": "Optional[Val]", "want": "bool", "offset_linenos": "Optional[Val]",
+                 "prefix": "bool"},
+         raises={"Exception*?": None},
+         loops={0: LoopSpec(header="self._parts", invariants=[], modifies=[],
+                            body_post=[("each-part-once-with-the-doctest-wide-numbering",
+                                        "ev_count('DoctestPart.format_part') == 1 and " + _FP % "self" + " is part and "
+                                        + _FP % "linenos" + " == linenos and " + _FP % "want" + " == want and " + _FP % "prefix" + " == prefix and "
+                                        + _FP % "startline" + " == startline and "
+                                        "ev_count('yield') == 1 and ev_arg('yield', 0, 'value') == " + _FP % "result")])},
+         props=["C18"],
+         opts={"native": False,
+               "use": {"xdoctest.doctest_part:DoctestPart.format_part": "xdoctest.doctest_part:DoctestPart.format_part#any",
+                       "xdoctest.doctest_example:DoctestConfig.getvalue": "xdoctest.doctest_example:DoctestConfig.getvalue#display"},
+               "entry_types": {"DocTest.exc_info": "Optional[Val]", "DocTest.failed_part": "Optional[Val]"},
+               "region": {"from": "self._parse()",
+                          "drop": ["n_lines = sum(", "endline = startline + n_lines", "n_digits = math.log(", "n_digits = int("]},
+               "exit_facts": [("numbering-starts-at-one-or-at-the-doctest-line",
+                               "startline == (self.lineno if (linenos and bool(offset_linenos)) else 1)")]},
+         note="region: the whole body minus the computation of the number WIDTH (dropped: n_lines / endline / n_digits); format_parts: every part is formatted exactly once, in order, with the same options and the same first line number: 1 "
+              "(doctest-relative) or the doctest's line in its file (offset_linenos); the number width is computed once for the whole doctest",
+         sentinel=("numbering-restarts-per-part", "True == False"))
